@@ -228,6 +228,11 @@ func buildFaults(m *gen.Model, base *gen.Rendered, r *xrand.Rand) []fault {
 		{"second-Body-under-a-second-Request", "POST /zzsecondbody\n  Request\n    Body any\n  Request\n    Body empty\n  200 any\n"},
 		{"second-Protocol-after-a-Method", "URL /zzprotoafter\n  Method first\n    Params\n      {}\n  Protocol json-rpc-2.0\n  Method second\n    Params\n      {}\n  Protocol json-rpc-2.0\n"},
 		{"second-Protocol-after-Tags-and-Method", "TAG @zzpt\nURL /zzprotoafter2\n  Tags @zzpt\n  Method first\n    Params\n      {}\n  Protocol json-rpc-2.0\n  Protocol json-rpc-2.0\n"},
+		{"similar-paths-rpc-url-then-method-in-a-big-project", c11Padding + "URL /zzbig1/{id}\n  Protocol json-rpc-2.0\n  Method m\n    Params\n      {}\nGET /zzbig1/{name}\n  200 any\n"},
+		{"similar-paths-method-then-bare-url-in-a-big-project", c11Padding + "GET /zzbig2/{name}\n  200 any\nURL /zzbig2/{id}\n"},
+		{"similar-paths-url-with-method-then-method-in-a-big-project", c11Padding + "URL /zzbig3/{id}\n  POST\n    Request any\n    200 any\nGET /zzbig3/{name}/more\n  200 any\n"},
+		{"duplicate-method-in-a-big-project", c11Padding + "GET /zzbig4/x\n  200 any\nGET /zzbig4/x\n  200 any\n"},
+		{"duplicate-type-in-a-big-project", c11Padding + "TYPE @zzpad3 any\n"},
 		{"type-without-name-regex", "TYPE regex\n/ab+/\n"},
 		{"type-without-name-any", "TYPE any\n"},
 		{"type-without-name-empty", "TYPE empty\n"},
@@ -281,6 +286,15 @@ func buildFaults(m *gen.Model, base *gen.Rendered, r *xrand.Rand) []fault {
 	}
 	return out
 }
+
+// c11Padding: thirty declarations in front, for faults that may depend on the size of the project
+var c11Padding = func() string {
+	var sb strings.Builder
+	for i := 0; i < 30; i++ {
+		fmt.Fprintf(&sb, "TYPE @zzpad%d any\n", i)
+	}
+	return sb.String()
+}()
 
 func lineIndent(text string, at int) int {
 	n := 0
